@@ -175,38 +175,3 @@ func textOrderKept(sc *Scenario, app appdef.IAppDef) bool {
 	}
 	return true
 }
-
-// allLacksOperations: a VSQL `ALL ON TABLE t` statement (no column list) was compiled to a rule that
-// lacks some ACL operation applicable to the table (observed; finding C13-F9). Returns the tables concerned.
-func allLacksOperations(sc *Scenario, app appdef.IAppDef) map[string]bool {
-	res := map[string]bool{}
-	if !sc.Vsql {
-		return res
-	}
-	all := app.ACL()
-	i := len(sysRules(app))
-	visit := func(rules []RuleD) {
-		for _, r := range rules {
-			if r.Skipped != "" {
-				continue
-			}
-			if i < len(all) && (r.Kind == "grantall" || r.Kind == "revokeall") && len(r.Fields) == 0 {
-				if t := app.Type(qn(r.Flt.Names[0])); t != appdef.NullType {
-					for o := range appdef.ACLOperationsForType(t.Kind()).Values() {
-						if !all[i].Op(o) {
-							res[r.Flt.Names[0]] = true
-						}
-					}
-				}
-			}
-			i++
-		}
-	}
-	for _, w := range sc.Wss {
-		visit(w.Rules)
-	}
-	for _, a := range sc.Alter {
-		visit(a.Rules)
-	}
-	return res
-}
